@@ -2,11 +2,16 @@ import Swat4.Lemmas.LockFencing
 /-!
 # Lease expiry and the `ttl` flag of a lock cell (helper definitions for C10 `holder_death_unblocks`)
 
-`RStore.lockExpire` (Model/Store.lean) removes a lock cell whatever its `ttl` flag says: in the model the flag is
-*decorative* — `lockSetNX` always writes `ttl := true` and nothing reads it.  `lockExpireTTL` is the expiry a Redis server
-performs: only a key that carries a TTL can expire.  On stores satisfying `Consistent.ttl` the two coincide
-(`lockExpire_eq_TTL`), which is the one place where "every lock key carries an expiry" does work for liveness; a cell
-without TTL is never freed by `lockExpireTTL` (`lockExpireTTL_persistent`).
+`RStore.lockExpire` (Model/Store.lean) **reads** the `ttl` flag of the cell: a cell without TTL is left alone by the expiry
+event, exactly as a Redis key without TTL never expires; `lockSetNX` writes `ttl := leaseHasTTL`, i.e. "the lease duration
+extracted from the source (`Facts.lockLeaseMs`) is positive".  So `Consistent.ttl` / `lock_ttl` ("every lock cell carries a
+TTL") is what makes the expiry event effective (`lockExpire_frees`), and a cell without TTL would block its address for good
+(`lockExpire_persistent`).
+
+(History: until review round 2 the flag was decorative — `lockExpire` removed the cell whatever it said.  `lockExpireTTL`
+below was the TTL-respecting expiry stated next to the model; it is now *equal* to the model's expiry
+(`lockExpire_eq_TTL'`), and `lockExpire_eq_TTL` — on stores satisfying `Consistent.ttl` the old and the new behaviour
+coincide — is kept: it is why the change does not alter the behaviour on reachable states.)
 -/
 namespace Swat4
 open Std
@@ -27,6 +32,21 @@ theorem lockExpire_eq_TTL {st : RStore} (h : ∀ (k : Nat) (c : LockCell), st.lo
   | none => unfold lockExpire; rw [hc]
   | some c => simp only [h k c hc, if_true]
 
+/-- unconditionally: the model's expiry is the TTL-respecting one (since the `ttl` flag is read by `lockExpire`) -/
+theorem lockExpire_eq_TTL' (st : RStore) (k : Nat) (dirties : Bool) : st.lockExpire k dirties = st.lockExpireTTL k dirties := by
+  unfold lockExpireTTL
+  cases hc : st.locks[k]? with
+  | none => unfold lockExpire; rw [hc]
+  | some c =>
+    show _ = if c.ttl = true then st.lockExpire k dirties else st
+    by_cases ht : c.ttl = true
+    · rw [if_pos ht]
+    · rw [if_neg ht]; exact lockExpire_some_nottl hc (by simpa using ht)
+
+/-- a cell without TTL survives the model's expiry event: its address stays blocked -/
+theorem lockExpire_persistent {st : RStore} {k : Nat} {c : LockCell} (hc : st.locks[k]? = some c) (ht : c.ttl = false)
+    (dirties : Bool) : st.lockExpire k dirties = st := lockExpire_some_nottl hc ht
+
 /-- a cell without TTL survives every (TTL-respecting) expiry: its address would stay blocked -/
 theorem lockExpireTTL_persistent {st : RStore} {k : Nat} {c : LockCell} (hc : st.locks[k]? = some c) (ht : c.ttl = false)
     (dirties : Bool) : st.lockExpireTTL k dirties = st := by
@@ -34,18 +54,27 @@ theorem lockExpireTTL_persistent {st : RStore} {k : Nat} {c : LockCell} (hc : st
   rw [hc]
   simp only [ht, Bool.false_eq_true, if_false]
 
-/-- after the model's expiry event the lock key is absent -/
-theorem lockExpire_frees (st : RStore) (k : Nat) (dirties : Bool) : (st.lockExpire k dirties).locks[k]? = none := by
-  unfold lockExpire
+/-- after the model's expiry event the lock key is absent — **provided its cell (if any) carries a TTL**
+(statement changed with the model: the premise is `Consistent.ttl` at `k`) -/
+theorem lockExpire_frees (st : RStore) (k : Nat) (dirties : Bool)
+    (httl : ∀ c : LockCell, st.locks[k]? = some c → c.ttl = true) : (st.lockExpire k dirties).locks[k]? = none := by
   cases hc : st.locks[k]? with
-  | none => exact hc
+  | none => rw [lockExpire_none hc]; exact hc
   | some c =>
-    simp only
-    split
-    · show (st.locks.erase k)[k]? = none
+    cases dirties with
+    | true =>
+      rw [lockExpire_some_dirty hc (httl c hc)]
+      show (st.locks.erase k)[k]? = none
       simp
-    · show (st.locks.erase k)[k]? = none
+    | false =>
+      rw [lockExpire_some_clean hc (httl c hc)]
+      show (st.locks.erase k)[k]? = none
       simp
+
+/-- … and the premise is needed: the expiry event leaves a cell without TTL where it is -/
+theorem lockExpire_keeps_nottl {st : RStore} {k : Nat} {c : LockCell} (hc : st.locks[k]? = some c) (ht : c.ttl = false)
+    (dirties : Bool) : (st.lockExpire k dirties).locks[k]? = some c := by
+  rw [lockExpire_some_nottl hc ht]; exact hc
 
 end RStore
 end Swat4
